@@ -38,6 +38,13 @@ def mutations(rng, tier):
             out.append(G + bytes([fl]) + sz.to_bytes(8, "big"))
             out.append(G + bytes([fl]) + sz.to_bytes(8, "big") + b"x" * 100)
             out.append(G + W.ready(b"DEALER") + bytes([fl]) + sz.to_bytes(8, "big") + b"y" * 20)
+    # ... declared by a LATER frame of a multipart message, after non-empty frames (size accounting across frames)
+    for sz in (2 ** 31, 2 ** 40, 2 ** 62, 2 ** 63 - 1, 2 ** 63, 2 ** 64 - 2, 2 ** 64 - 1):
+        for pre in (W.frame(b"x", more=True), W.frame(b"x" * 300, more=True), W.frame(b"", more=True) + W.frame(b"yz", more=True),
+                    W.frame(b"q" * 255, more=True) * 3):
+            for fl in (2, 3):
+                out.append(G + W.ready(b"DEALER") + pre + bytes([fl]) + sz.to_bytes(8, "big"))
+                out.append(G + pre + bytes([fl]) + sz.to_bytes(8, "big") + b"z" * 50)
     # many MORE frames in one read
     for n in ((1000, 10000) if tier == "quick" else (1000, 10000, 100000)):
         out.append(G + bytes([1, 1, 1]) * n + bytes([0, 0]))
